@@ -112,6 +112,15 @@ end RotoV.TcInfer
 namespace RotoV.TcInfer
 open RotoV.Typing RotoV.Unify RotoV.Gen
 
+theorem keeps_declareAllM : ∀ (ps : List (Nat × MTy)) (g : MGamma), Keeps (declareAllM g ps)
+  | [], g => by simp only [declareAllM]; exact keeps_pure _
+  | (x, t) :: rest, g => by
+    simp only [declareAllM]
+    apply keeps_bind (keeps_declareM _ _ _)
+    intro g'
+    exact keeps_declareAllM rest g'
+
+
 mutual
 theorem keepsE (env : Env) (e : Expr) (hc : coreE e = true) : ∀ cx g, Keeps (infer env cx g e) := by
   intro cx g
@@ -187,8 +196,42 @@ theorem keepsE (env : Env) (e : Expr) (hc : coreE e = true) : ∀ cx g, Keeps (i
     have ih := keepsFields env fields hc
     simp only [infer]
     repeat' (first | exact ih _ _ _ | keeps_step)
-  | mcall _ _ _ | cassign _ _ _ _ _ | «match» _ _ | fstr _ => simp [coreE] at hc
+  | «match» e arms =>
+    simp only [coreE, Bool.and_eq_true] at hc
+    have ih1 := keepsE env e hc.1.1
+    have ih2 := keepsArms env arms hc.2
+    simp only [infer]
+    repeat' (first | exact ih1 _ _ | exact ih2 _ _ _ _ | keeps_step)
+  | mcall _ _ _ | cassign _ _ _ _ _ | fstr _ => simp [coreE] at hc
 termination_by sizeOf e
+
+theorem keepsArms (env : Env) (arms : List Arm) (hc : coreA arms = true) :
+    ∀ cx g vs st0, Keeps (inferArms env cx g vs arms st0) := by
+  intro cx g vs st0
+  cases arms with
+  | nil => simp only [inferArms]; repeat' keeps_step
+  | cons a rest =>
+    cases a with
+    | mk pat guard body =>
+      have hcb : coreB body = true := by
+        cases guard <;> simp only [coreA, Bool.and_eq_true] at hc
+        · exact hc.1
+        · exact hc.1.2
+      have hcr : coreA rest = true := by
+        cases guard <;> simp only [coreA, Bool.and_eq_true] at hc <;> exact hc.2
+      have ihb := keepsB env body hcb
+      have ihr := keepsArms env rest hcr
+      rw [inferArms.eq_def]
+      simp only
+      cases guard with
+      | none =>
+        simp only
+        repeat' (first | exact ihb _ _ | exact ihr _ _ _ _ | exact keeps_declareAllM _ _ | keeps_step)
+      | some gd0 =>
+        have ihg := keepsE env gd0 (by simp only [coreA, Bool.and_eq_true] at hc; exact hc.1.1)
+        simp only
+        repeat' (first | exact ihg _ _ | exact ihb _ _ | exact ihr _ _ _ _ | exact keeps_declareAllM _ _ | keeps_step)
+termination_by sizeOf arms
 
 theorem keepsFields (env : Env) (fs : List Field) (hc : coreF fs = true) :
     ∀ cx g decl, Keeps (inferFields env cx g fs decl) := by
@@ -290,14 +333,6 @@ theorem keeps_go (env : Env) : ∀ params, Keeps (inferFn.go env params)
     have ih := keeps_go env rest
     simp only [inferFn.go]
     repeat' (first | exact ih | keeps_step)
-
-theorem keeps_declareAllM : ∀ (ps : List (Nat × MTy)) (g : MGamma), Keeps (declareAllM g ps)
-  | [], g => by simp only [declareAllM]; exact keeps_pure _
-  | (x, t) :: rest, g => by
-    simp only [declareAllM]
-    apply keeps_bind (keeps_declareM _ _ _)
-    intro g'
-    exact keeps_declareAllM rest g'
 
 theorem keeps_apply {α : Type} {x : M α} (h : Keeps x) {st : St} {a : α} {st' : St} (hx : x st = .ok a st') :
     st'.obls = st.obls := by
